@@ -62,6 +62,10 @@ def Env.attrValue (e : Env) (f : FieldSig) (attr : String) : Val :=
 
 def isM2M (ftype : String) : Bool := ftype == "ManyToManyField"
 
+/-- NOTE: the value of the pseudo-attribute `related_model` is carried *raw* (`app.Model`, or
+`null`), not as JSON text; the codec converts at the protocol boundary. -/
+def relatedKey : String := "related_model"
+
 /-- JSON string literal → its content (identifiers only: no escapes occur in model/column names) -/
 def unq (v : Val) : String :=
   if v.startsWith "\"" && v.endsWith "\"" && v.length ≥ 2 then ((v.drop 1).dropEnd 1).toString else v
@@ -114,7 +118,7 @@ def simAddField (field ftype : String) (initial : Option Val) (attrs : List (Str
   else if !isM2M ftype && !attrTruthy attrs "null" && initial.isNone then .error .needInitial
   else
     let related := match dGet attrs "related_model" with
-      | some v => if v == vNull then none else some (unq v)
+      | some v => if v == vNull then none else some v
       | none => none
     .ok (m.addField ⟨field, ftype, popKey attrs "related_model", related⟩)
 
